@@ -167,6 +167,10 @@ def _run_all(fx):
             for n in f.all_nodes():
                 if n['k'] == 'if' and not q.leaves_function(f, n['then']):
                     rep.add(name)
+    r = engine.Run('ST', 'thorough', fx)
+    engines.moved_in_loop(r, fns)
+    engines.copy_sources_advance(r, fns)
+    rep |= _names(r)
     uni = {f.norm.split('::')[-1] for f in fns if f.norm.split('::')[-1].startswith(('bad_', 'good_'))}
     expect('R16/R4 paths+helpers', rep, uni)
     return ok, lines
